@@ -533,9 +533,34 @@ func (e *Engine) checkRefillKeepsLive(r *Report, rule string) {
 		}
 		n++
 		m, k := e.Canon(mu.Map), e.Canon(mu.Key)
-		cls := labeler(C("!"+m+"["+k+"]#1", "absent"))
-		e.Guarded(r, rule, e.ShortName(cl)+": cache insert from the log", cl, only(mu), cls,
-			func(l LabelSet) bool { return l.Has("absent") }, "no entry under that very key ("+shorten(k)+") yet")
+		ent := m + "[" + k + "]#0"
+		logged, _ := e.ConstVal("stage", "stateLogged")
+		cls := labeler(
+			C("!"+m+"["+k+"]#1", "absent"),
+			C("("+ent+".state == "+logged+")", "fromLog"),
+			C("call(time.(Time).Before)("+ent+".logged, p4)", "olderRecord"),
+			C("call(time.(Time).After)(p4, "+ent+".logged)", "olderRecord"),
+		)
+		res := e.Flow(cl, FlowOpts{Classify: cls, Target: only(mu)})
+		okGuard, replaces := !res.Undecided, false
+		var facts []string
+		for _, ws := range res.At {
+			for _, w := range ws {
+				facts = append(facts, w.String())
+				if w.Has("absent") {
+					continue
+				}
+				if w.HasAll("fromLog", "olderRecord") {
+					replaces = true
+					continue
+				}
+				okGuard = false
+			}
+		}
+		r.Check(okGuard, rule, e.ShortName(cl)+": cache insert from the log", e.InstrPos(mu),
+			"a log record can replace a cache entry that is neither absent nor an older record loaded from the log itself: the live verdict of a version in flight is overwritten", 1+res.Evals, facts...)
+		r.Check(replaces, rule, e.ShortName(cl)+": a later record of a name replaces the earlier one loaded from the log", e.InstrPos(mu),
+			"the refill reads the log oldest first and skips every name it already holds: of two deliveries of one name the cache keeps the FIRST one's hash, so a retransmission of the version delivered last is not recognised after a restart", 1, facts...)
 		r.Check(strings.HasPrefix(k, "call(filepath.Join)([^p0.rootDir, "), rule, e.ShortName(cl)+": the refill files entries under <stage root>/<name>, the key every other cache user reads", e.InstrPos(in),
 			"log records are cached under a key other than the staged path: "+k, 1, k)
 	})
